@@ -350,7 +350,8 @@ func genMemio(r *rng, out *bufio.Writer, n int) {
 			case 14:
 				if r.chance(50) {
 					if i := pick("dm"); i >= 0 && lens[i] >= 4 {
-						// a block moved inside one memory, source and destination overlapping either way (memmove semantics)
+						// a block of DISTINCT bytes is stored, then moved inside the same memory with source and destination overlapping either
+						// way (memmove semantics), then read back
 						n := 2 + r.n(6)
 						if n > lens[i]/2 {
 							n = lens[i] / 2
@@ -363,7 +364,15 @@ func genMemio(r *rng, out *bufio.Writer, n int) {
 						if dst > 65535 {
 							dst = 65535
 						}
+						blk := make([]byte, n)
+						for j := range blk {
+							blk[j] = uint8(0x11*(j+1)) ^ r.u8()&0x80
+						}
+						fmt.Fprintf(out, "put %d %04x %s\n", i, src, hex.EncodeToString(blk))
 						fmt.Fprintf(out, "putself %d %04x %04x %d\n", i, dst, src, n)
+						for j := 0; j < n && j < 4; j++ {
+							fmt.Fprintf(out, "get %d %04x\n", i, uint16(dst+r.n(n)))
+						}
 						break
 					}
 				}
